@@ -15,8 +15,8 @@ import PV.C11.Spec
     check are acceptance conditions (`validPos`, `validNames`, `bareStarOk`);
   * the `IfStatement` elif folding (`elifFold` over the reversed clause list), the `TryStatement`
     alternatives, import level from `.` / `...` tokens, dotted names, `simple` of `AnnAssign`
-    (`target.is_name_expr()`), the `_` special cases of patterns, `cannot use '_' as a target`;
-  * where the grammar deviates from CPython the CODE is mirrored: `match x,:` has subject `x`, `x[*a]` is a
+    (`target.is_name_expr()` and the name starts the statement), the `_` special cases of patterns, `cannot use '_' as a target`;
+  * where the grammar deviates from CPython the CODE is mirrored: `x[*a]` is a
     bare `Starred` (that one lives in `PV.C11.parseSubscriptList`), `def f(**)` / `def f(*, **k)` are accepted,
     assignment targets are not validated, pattern arithmetic is not restricted to complex literals.
 
@@ -1264,12 +1264,13 @@ def parseCompound : Nat → List Tok → PR Stmt
     -- MatchStatement
     | .hk .match =>
       (match parseCommaList .starOrNamed f r with
-       | some ((es, _), .op .colon :: t1 :: t2 :: r1) =>
+       | some ((es, tc), .op .colon :: t1 :: t2 :: r1) =>
          if tk t1 = .newline ∧ tk t2 = .indent then
            (match parseCases f r1 with
             | some (cs, r2) =>
-              -- one subject, with or without trailing comma, is the subject itself (the code's reading)
-              some (.match (match es with | [e] => e | _ => .tuple es) cs, r2)
+              -- one subject without a trailing comma is the subject itself; a trailing comma or several
+              -- subjects give a tuple (`match x,:` is `Tuple([x])` since the /repo fix of the second alternative)
+              some (.match (genericList (es, tc)) cs, r2)
             | none => none)
          else none
        | _ => none)
